@@ -30,6 +30,7 @@ import Mhd.Proofs.ConnSMStep
 import Mhd.Proofs.ConnSMFuel
 import Mhd.Proofs.ConnSMUpload
 import Mhd.Proofs.ConnSMBracket
+import Mhd.Proofs.ConnSMChunked
 
 namespace Mhd.C05
 open Mhd.ConnSM Mhd.Protocol Mhd.Gen.ConnState
@@ -197,6 +198,47 @@ theorem body_fuel_sufficient {σ : Type} (cfg : Cfg) (app : App σ) (env : IdleE
   bodyFuel_sufficient cfg app env buf c n h
 
 example : idleFuel (Conn.init ()) ≤ 1000 ∧ bodyFuel [.data 3, .chunkEnd] ≤ 1000 := by decide
+
+/-- Thread-per-connection mode, daemon shutdown: the exit path of the connection's own thread
+    (`MHD_connection_close_ (DAEMON_SHUTDOWN)` then `MHD_connection_handle_idle`) is the event `shutdownClose`
+    for every connection that is not suspended: same callback log, same record up to the scratch flag `touched`.
+    So all theorems above cover that path too.  (Not covered: a suspended connection that is being resumed is
+    first taken back from the suspended list by the thread; no run against the real code in this mode.) -/
+theorem tpc_shutdown_is_shutdownClose {σ : Type} (cfg : Cfg) (app : App σ) (env : IdleEnv) (c : Conn σ)
+    (hf : c.fault = false) (hs : c.started = true) (hc : c.cleaned = false) (hi : c.inCleanup = false)
+    (hsu : c.suspended = false) :
+    (handleIdle cfg app env (closeConn c terminatedDaemonShutdown).1).1 =
+      { (Mhd.ConnSM.step cfg app c .shutdownClose).1 with touched := false } ∧
+    (closeConn c terminatedDaemonShutdown).2 ++ (handleIdle cfg app env (closeConn c terminatedDaemonShutdown).1).2 =
+      (Mhd.ConnSM.step cfg app c .shutdownClose).2 :=
+  tpc_exit_is_shutdownClose cfg app env c hf hs hc hi hsu
+
+example :
+    let app : App Unit := { uriLog := fun _ => ((), none), handle := fun _ _ => ((), { ctxOut := some 1 }) }
+    let c := (Mhd.ConnSM.run {} app (Conn.init ()) [.start, .recv [.line .ok, .headers .none true false], .idle {}]).1
+    c.fault = false ∧ c.started = true ∧ c.cleaned = false ∧ c.inCleanup = false ∧ c.suspended = false ∧
+    c.clientAware = true ∧
+    (Mhd.ConnSM.step {} app c .shutdownClose).2 = [.completed terminatedDaemonShutdown (some 1)] := by decide
+
+/-- PARTIAL (chunked counterpart of `upload_complete_length`).  With the ghost field `chunkTotal` (sum of the chunk
+    sizes declared so far) process_request_body keeps, for a chunked upload that is not discarded,
+    `upOff + chunkLeft = chunkTotal`, `chunkLeft = 0` outside a chunk, and `chunkLeft = 0` once the last chunk has
+    been seen (`remaining = 0`) — for every buffer content, fuel and application.  Full statement, NOT proved:
+    in every reachable record in FULL_REQ_RECEIVED … FULL_REPLY_SENT with chunked framing and the upload not
+    discarded, `upOff = chunkTotal`.  Missing: the lifting of `CInv` (Mhd/Proofs/ConnSMChunked.lean) through
+    idleCase / step (the interim loop-back to HEADERS_PROCESSED with `remaining = 0` needs its own clause). -/
+theorem chunked_body_accounting_partial {σ : Type} (cfg : Cfg) (app : App σ) (env : IdleEnv) (n : Nat) (buf : List Tok)
+    (c : Conn σ) (hst : c.state = .bodyReceiving) (h : BInv c)
+    (hrem : c.haveChunked = true → c.discard = false → c.remaining ≠ 0) :
+    Safe (processBody cfg app env n buf c).1 ∨
+    ((processBody cfg app env n buf c).1.state = .bodyReceiving ∧ BInv (processBody cfg app env n buf c).1) :=
+  processBody_binv cfg app env n buf c hst h hrem
+
+example :
+    let c : Conn Unit := { app := (), state := .bodyReceiving, haveChunked := true, remaining := 1 }
+    let app : App Unit := { uriLog := fun _ => ((), none), handle := fun _ ci => ((), { take := ci.offered }) }
+    let r := processBody {} app {} 20 [.chunkHdr 3, .data 3, .chunkEnd, .chunkHdr 2, .data 2, .chunkEnd, .chunkHdr 0] c
+    r.1.upOff = 5 ∧ r.1.chunkTotal = 5 ∧ r.1.chunkLeft = 0 ∧ r.1.remaining = 0 := by decide
 
 /-! ### upload completeness -/
 
